@@ -153,7 +153,7 @@ impl<'a> GcSubject<'a> {
         for op in hist {
             match op {
                 MOp::Gc => walrus::passes::gc::run(&mut m),
-                MOp::Emit | MOp::EmitFile => {
+                MOp::Emit | MOp::EmitFile | MOp::Rewrap => {
                     m.emit_wasm();
                 }
                 MOp::Reparse => {
@@ -180,7 +180,7 @@ impl<'a> Subject for GcSubject<'a> {
     fn apply(&self, o: &mut GObj, op: &MOp, _at: usize) -> Result<(), Finding> {
         match op {
             MOp::Gc => walrus::passes::gc::run(&mut o.m),
-            MOp::Emit | MOp::EmitFile => {
+            MOp::Emit | MOp::EmitFile | MOp::Rewrap => {
                 o.m.emit_wasm();
             }
             MOp::Reparse => {
@@ -227,7 +227,7 @@ fn hist_of(cfg: &serde_json::Value) -> Vec<MOp> {
         .unwrap_or_default()
 }
 fn hist_json(h: &[MOp]) -> serde_json::Value {
-    json!(h.iter().map(|o| match o { MOp::Emit => "emit", MOp::Gc => "gc", MOp::Reparse => "reparse", MOp::EmitFile => "emit-file" }).collect::<Vec<_>>())
+    json!(h.iter().map(|o| match o { MOp::Emit => "emit", MOp::Gc => "gc", MOp::Reparse => "reparse", MOp::EmitFile => "emit-file", MOp::Rewrap => "rewrap" }).collect::<Vec<_>>())
 }
 
 pub fn check_c07_idem(c: &Case, depth: usize) -> (Stats, Vec<Violation>) {
